@@ -232,6 +232,13 @@ def events_of(job: dict) -> list[dict]:
         for rescale in (False, True):
             e = drv.project_pseudo(res, every, rescale, own_axes=(every % 5 == 0))
             evs.append(e | {"call": {"every": every, "rescale": rescale}})
+    if job["kind"] == "single" and job["plot_seed"] % 2 == 0:
+        # the caller looked at the in-place recovery before plotting: the figures still show recovery_factor()
+        import warnings  # noqa: PLC0415
+
+        with warnings.catch_warnings():
+            warnings.simplefilter("ignore")
+            res.recovery_factor(density=True)
     cache: dict = {}
     for which in ("rf", "rate"):
         for ticks in (False, True):
